@@ -261,6 +261,10 @@ class CSSMediaRule(cssrule.CSSRuleRules):
             # raising mode: the new content may have been set in parts
             self._media, self._cssRules = oldMedia, oldCssRules
             raise
+        if self._cssRules is not oldCssRules:
+            # the replaced rules do not belong to this rule anymore
+            for rule in oldCssRules:
+                rule._parentRule = None
 
     cssText = property(
         _getCssText,
